@@ -280,6 +280,8 @@ def stage_corr(ctx: Ctx):
                 except (fst.NodeError, SyntaxError, ValueError):
                     terms.append(f'oex_eqb (p2e {got}) None')
                     meta.append({'src': src, 'via': via, 'direction': 'pattern->expr', 'real': 'refused'})
+                except Exception as ex:
+                    ctx.violation(f'coerce-crash|expr|{type(ex).__name__}', 'coercion raised an unexpected error', {'src': p.src, 'from_expr': src, 'via': via, 'direction': 'pattern->expr', 'error': repr(ex)[:300]})
     ctx.extra['e2p_accept_refuse'] = [n_ok, n_rej]
     failed = coq_eval_bools('C19_e2p', HDR, terms, shard=400)
     ctx.correspondence('models/Coerce.v e2p / p2e == FST(expr).as_("pattern") / FST(ast, "pattern") / pattern.as_("expr"): accept/refuse and resulting structure', len(terms),
